@@ -25,7 +25,7 @@ def one_trace(rng: random.Random, tid: str, prop: str, kind=None, depth=4) -> di
         shape = base_shape if i == 0 else gen.broadcast_partner(rng, base_shape)
         spec = gen.rand_poly_spec(rng, shape=shape, names=rng.choice(name_sets), kind=kind,
                                   max_terms=rng.choice([1, 2, 3, 6]), max_exp=rng.choice([1, 2, 3]))
-        polys.append(rec.new(build_poly(spec), note="poly"))
+        polys.append(gen.maybe_view(rec, rng, rec.new(build_poly(spec), note="poly"), 0.15))
     nums = []
     for _ in range(rng.randint(1, 2)):
         shape = gen.broadcast_partner(rng, base_shape)
@@ -90,9 +90,30 @@ def one_trace(rng: random.Random, tid: str, prop: str, kind=None, depth=4) -> di
     return rec.to_json()
 
 
+def pow_sweep_trace(rng, tid, prop, index):
+    """** with an array exponent on one (base shape, exponent shape) pair of the systematic list, both orders of ndim."""
+    from .shape import distinct_poly_spec
+    reset_options()
+    rec = Recorder(tid, prop)
+    pairs = gen.shape_pairs()
+    s1, s2 = pairs[index % len(pairs)]
+    base = rec.new(build_poly(distinct_poly_spec(rng, s1, names=(0, 1), kind="int")))
+    size = int(numpy.prod(s2, dtype=int))
+    e = numpy.array([rng.randint(0, 2) for _ in range(size)], dtype=int).reshape(s2)
+    b = rec.new(e if rng.random() < 0.7 else e.tolist())
+    rec.do("arith", [base, b], keep=False, op="pow", spelling=rng.choice(["operator", "numpy", "numpoly"]))
+    for op in ("add", "mul", "sub"):
+        other = rec.new(build_poly(distinct_poly_spec(rng, s2, names=(0, 2), kind="int", tag=3)))
+        rec.do("arith", [base, other], keep=False, op=op, spelling=rng.choice(["operator", "numpy", "numpoly"]))
+    return rec.to_json()
+
+
 def generate(seed: int, n: int, prop: str = "C01", start: int = 0, **kw) -> list:
     out = []
     for i in range(start, start + n):
         rng = random.Random("ring/%d/%d" % (seed, i))
-        out.append(one_trace(rng, "%s-ring-s%d-%05d" % (prop, seed, i), prop, **kw))
+        if i % 3 == 0:
+            out.append(pow_sweep_trace(rng, "%s-ring-s%d-%05d" % (prop, seed, i), prop, i // 3 + seed))
+        else:
+            out.append(one_trace(rng, "%s-ring-s%d-%05d" % (prop, seed, i), prop, **kw))
     return out
